@@ -31,6 +31,7 @@ var (
 	ErrDecimalPrecisionTooHigh         = fmt.Errorf("precision is set to more than %d digits", aseMaxDecimalDigits)
 	ErrDecimalPrecisionTooLow          = fmt.Errorf("precision is set to less than 0 digits")
 	ErrDecimalScaleTooHigh             = fmt.Errorf("scale is set to more than %d digits", aseMaxDecimalDigits)
+	ErrDecimalScaleTooLow              = fmt.Errorf("scale is set to less than 0 digits")
 	ErrDecimalScaleBiggerThanPrecision = fmt.Errorf("scale is bigger then precision")
 )
 
@@ -86,6 +87,10 @@ func (dec Decimal) sanity() error {
 
 	if dec.Scale > aseMaxDecimalDigits {
 		return ErrDecimalScaleTooHigh
+	}
+
+	if dec.Scale < 0 {
+		return ErrDecimalScaleTooLow
 	}
 
 	if dec.Scale > dec.Precision {
